@@ -354,6 +354,8 @@ func runC12(tier string) int {
 	// dictionary sweep: every identifier-like literal of the compiler's own source as a case label, as the -s value and
 	// as the switch key, in every position, colon and brace form
 	words := dictIdents()
+	// (round 13) numbers as case labels in spellings other than canonical decimal: labels and -s values are compared as written
+	words = append(words, "0x10", "16", "007", "7", "010", "00", "0x1f", "31")
 	sweepDone := r.Parallel(uint64(len(words))*uint64(len(positions))*4, func(w int, idx uint64) {
 		variant := int(idx % 4)
 		x := idx / 4
